@@ -24,6 +24,7 @@ RULE = ("feature x image class x mask kind x channels x dtype x size (feature mi
 ASSUMPTIONS = ["the generic normalize on a sparsely masked image uses the masked pixels only (documented); array-vs-image is judged for it on Image and all-true masks",
                "optional features needing absent dependencies (dsift, hog, lbp via cyvlfeat etc.) are not present in this environment"]
 DECIDING_TAPS = ["feature:gradient", "feature:daisy", "feature:normalize"]
+REPLAY_PATHS = ['menpo/feature/test', 'menpo/image/test']      # suite replay (thorough tier): the repository's own tests under these monitors
 SHARDS = {"quick": 8, "thorough": 16}
 
 SAME_SIZE = {"gradient", "gaussian_filter", "igo", "es", "no_op", "normalize", "normalize_norm", "normalize_std", "normalize_var"}
